@@ -31,9 +31,10 @@ Definition wf_case (c : case) : bool :=
   | DelayNew mean cap _ => nz32 mean && nz32 cap
   | DelayDraw mean cap ds _ => nz32 mean && nz32 cap && (mean <=? cap) && forallb h32 ds
   | Heights _ cap commit n ds _ | Sched cap commit n ds _ => nz32 cap && h32 commit && (0 <=? n) && forallb h32 ds
-  | AnchorDraw iv nu f tip ws _ => nz32 iv && h32 nu && h32 f && h32 tip && words ws
-  | AnchorRedraw iv prior b ws _ => nz32 iv && h32 prior && h32 b && words ws
+  | AnchorDraw _ iv nu f tip ws _ => nz32 iv && h32 nu && h32 f && h32 tip && words ws
+  | AnchorRedraw _ iv prior b ws _ => nz32 iv && h32 prior && h32 b && words ws
   | Earliest iv nu f _ => nz32 iv && h32 nu && h32 f
+  | CanonDenom lo hi v _ => in_range 0 MAX_MONEY_Z lo && in_range 0 MAX_MONEY_Z hi && in_range 0 MAX_MONEY_Z v
   | Wakeups m j tip ts ws _ _ =>
       h32 m && h32 j && h32 tip && words ws &&
       forallb (fun t => h32 (fst (fst t)) && h32 (snd (fst t)) && h32 (snd t)) ts
